@@ -56,7 +56,10 @@ META = {
         "exactly for the impact the code reported",
         "v2: deposits whose negative price impact exceeds what is left of a deposited side after fees are not issued "
         "(the contract reverts them in unsigned arithmetic; the statement says nothing about them; demeter mints a "
-        "negative GM amount)",
+        "negative GM amount); the same for dust deposits smaller than the binary64 rounding noise of the impact "
+        "formula on that pool (the noise alone can exceed the deposit)",
+        "the harness tops the wallet up when a generated v1 buy exceeds it (insufficient balance is a legitimate "
+        "rejection, not under test here)",
         "v2: each deposited side's positive impact is capped separately by the bar's single impactPoolAmount "
         "(demeter has one impact-pool column)",
         "v2 fee / impact factors are the ones configured on market.pool_config (defaults or harness-set values); the "
@@ -291,6 +294,9 @@ def v1_buy(ctx, tok, token_wei, tag=""):
     exp = G.add_liquidity(st, token_wei)
     path = G.fee_path(st.usdg_amount, exp["usdg"], st.target, True)
     rule_fees = G.fee_envelope(st.usdg_amount, exp["usdg"], st.target, True) | {exp["fee_bps"]}
+    if ctx.fz.broker.get_token_balance(tok) < amount:
+        ctx.fz.broker.add_to_balance(tok, amount)
+        mon.cls("v1/wallet-topped-up")
     wb = ctx.wallet()
     held_before = F(m.glp_amount)
     n_act = len(ctx.fz.actions)
@@ -807,6 +813,13 @@ def v2_deposit(ctx, la, sa, acls):
         # (unsigned arithmetic) and the statement says nothing about such a deposit -> outside the domain, not issued
         mon.cls("v2/dep/not-issued:negative-impact>deposit")
         return None, exp
+    if exp["info"]["sign_ambiguous"]:
+        # dust below the float noise of the impact formula: binary64 may report an impact as low as the smallest
+        # admissible value minus the bound, and if that alone exceeds the deposit the same thing happens
+        worst = min(exp["info"]["candidates"]) - exp["err_usd"]
+        if G.deposit(cfg, st, la, sa, impact_override=worst)["reverts"]:
+            mon.cls("v2/dep/not-issued:deposit-below-float-noise-of-impact")
+            return None, exp
     wb = ctx.wallet()
     held_before = F(float(m.amount))
     n_act = len(ctx.fz.actions)
